@@ -128,15 +128,14 @@ pub fn create_stun_message(method: MessageMethod, class: MessageClass, transacti
     attributes: StunAttributes) -> (r: StunMessage)
     ensures r.smethod() == method, r.sclass() == class, transaction_id is Some ==> r.sid() == transaction_id->Some_0,
 { unimplemented!() }
-// fingerprint.rs
-pub uninterp spec fn fp_verdict(raw: Seq<u8>, msg: StunMessage) -> Option<bool>;   // None: no FINGERPRINT present
-#[verifier::external_body]
-pub fn validate_fingerprint(raw_buffer: &[u8], msg: &StunMessage) -> (r: Result<bool, StunAgentError>)
-    ensures match fp_verdict(raw_buffer@, *msg) {
-        Some(b) => r == Ok::<bool, StunAgentError>(b),
-        None => r is Err && r->Err_0 is StunCheckFailed,
-    },
-{ unimplemented!() }
+// fingerprint.rs (contracts proved in unit attrset)
+//@include inc/attr_abs.rs
+//@include inc/fp_vocab.rs
+impl StunMessage {
+    pub uninterp spec fn attrs_view(&self) -> Seq<StunAttribute>;
+}
+pub open spec fn fp_verdict(raw: Seq<u8>, msg: StunMessage) -> Option<bool> { fp_verdict_of(raw, msg.attrs_view()) }
+//@import attrset :: stun_agent :: mod fingerprint > fn validate_fingerprint
 #[verifier::external_body]
 pub fn add_fingerprint_attribute(attributes: &mut StunAttributes)
     requires old(attributes).wf(),
@@ -265,6 +264,16 @@ pub open spec fn rto_advanced(m0: RtoManager, m1: RtoManager, now: int) -> bool 
     &&& m1.deadline() > now
     &&& m1.deadline() == m0.origin() + sched(m0.rtt(), m0.rm(), m0.rc(), m1.j())
     &&& forall|k: int| m0.j() <= k < m1.j() ==> m0.origin() + #[trigger] sched(m0.rtt(), m0.rm(), m0.rc(), k) <= now
+}
+// facts about what StunMessageTimeout::check popped that do not change during the timer call (kept opaque in the loop
+// invariant so that they are not re-proved at every loop boundary; revealed where used)
+#[verifier::opaque]
+pub open spec fn popped_facts(c0: StunClient, removed: Seq<TimeoutItem>, ids: Seq<TransactionId>, now: int) -> bool {
+    &&& ids.len() == removed.len()
+    &&& (forall|k: int| 0 <= k < removed.len() ==> ids[k] == #[trigger] removed[k].transaction_id && removed[k].expiry() <= now)
+    &&& (forall|k: int| 0 <= k < removed.len() ==> c0.transactions@.contains_key(#[trigger] removed[k].transaction_id)
+            && removed[k] == c0.entry(removed[k].transaction_id))
+    &&& (forall|a: int, b: int| 0 <= a < b < removed.len() ==> removed[a].transaction_id != removed[b].transaction_id)
 }
 // one event of a timer call, about request `id`
 pub open spec fn tmo_event_ok(c0: StunClient, tr1: Map<TransactionId, StunTransaction>, id: TransactionId, e: StunClientEvent, now: int) -> bool {
@@ -630,6 +639,7 @@ impl StunClient {
     pub proof fn lemma_after_check(&self, ms1: Multiset<TimeoutItem>, removed: Seq<TimeoutItem>, ids: Seq<TransactionId>, now: int)
         requires self.wf(), check_post(self.timeouts.ms(), ms1, removed, ids, now),
         ensures
+            popped_facts(*self, removed, ids, now),
             ids.len() == removed.len(),
             forall|k: int| 0 <= k < removed.len() ==> ids[k] == #[trigger] removed[k].transaction_id && removed[k].expiry() <= now,
             forall|k: int| 0 <= k < removed.len() ==> self.transactions@.contains_key(#[trigger] removed[k].transaction_id)
@@ -639,6 +649,7 @@ impl StunClient {
                 && (forall|k: int| 0 <= k < removed.len() ==> x.transaction_id != #[trigger] removed[k].transaction_id),
             forall|y: TimeoutItem| self.timeouts.ms().count(y) == ms1.count(y) + removed.to_multiset().count(y),
     {
+        reveal(popped_facts);
         let ms0 = self.timeouts.ms();
         removed.to_multiset_ensures();
         assert forall|k: int| 0 <= k < removed.len() implies
@@ -697,7 +708,6 @@ impl StunClient {
     let ghost ms1 = self.timeouts.ms();
     proof {
         c0.lemma_after_check(ms1, removed, timed_out@, now);
-        assert(forall|k: int| 0 <= k < removed.len() ==> timed_out@[k] == #[trigger] removed[k].transaction_id && removed[k].expiry() <= now);
         assert forall|id: TransactionId| #[trigger] self.transactions@.contains_key(id)
             && (forall|k: int| 0 <= k < removed.len() ==> #[trigger] removed[k].transaction_id != id) implies self.tr_ok(id) by {
             assert(c0.tr_ok(id));
@@ -717,6 +727,7 @@ impl StunClient {
     let ghost evs = events.events@;
     let ghost ids = Seq::new(removed.len(), |k: int| removed[k].transaction_id);
     proof {
+        reveal(popped_facts);
         assert(self.wf());
         self.lemma_empty_iff();
         assert forall|a: int, b: int| 0 <= a < ids.len() && 0 <= b < ids.len() && a != b implies ids[a] != ids[b] by {
@@ -768,11 +779,13 @@ impl StunClient {
     let ghost ms0 = self.timeouts.ms();
     let ghost mech0 = self.mechanism;
     proof {
+        reveal(popped_facts);
         assert(tr0.contains_key(cur) && tr0[cur] == c0.transactions@[cur]);
         assert(c0.tr_ok(cur));
     }
 //@loopend 1
     proof {
+        reveal(popped_facts);
         let tr1 = self.transactions@;
         let ms1b = self.timeouts.ms();
         assert(events.events@.len() == i + 1);
@@ -810,10 +823,7 @@ impl StunClient {
     invariant
         obeys_key_model::<TransactionId>(),
         vx_i0 <= timed_out@.len(), timed_out@.len() == removed.len(), now == instant.ns@, c0 == *old(self), c0.wf(),
-        forall|k: int| 0 <= k < removed.len() ==> timed_out@[k] == #[trigger] removed[k].transaction_id && removed[k].expiry() <= now,
-        forall|k: int| 0 <= k < removed.len() ==> c0.transactions@.contains_key(#[trigger] removed[k].transaction_id)
-            && removed[k] == c0.entry(removed[k].transaction_id),
-        forall|a: int, b: int| 0 <= a < b < removed.len() ==> removed[a].transaction_id != removed[b].transaction_id,
+        popped_facts(c0, removed, timed_out@, now),
         self.timeouts.wf(), self.rtt == c0.rtt, self.max_transactions == c0.max_transactions,
         self.use_fingerprint == c0.use_fingerprint, self.transaction_events == c0.transaction_events,
         self.transactions@.dom().finite(), self.transactions@.dom().subset_of(c0.transactions@.dom()),
